@@ -1589,3 +1589,60 @@ fn test_multintt() {
         }
     }
 }
+
+// Verification hooks (add-only, compiled only with `--cfg yamaquasi_verif`):
+// plain wrappers exposing the private Fermat-number arithmetic and a few
+// read-only accessors of MultiZmodP to the external property harness.
+#[cfg(yamaquasi_verif)]
+impl<const N: usize> FInt<N> {
+    pub fn verif_from(words: [u64; N], hi: u64) -> Self {
+        FInt(words, hi)
+    }
+    pub fn verif_parts(&self) -> ([u64; N], u64) {
+        (self.0, self.1)
+    }
+    pub fn verif_add(&self, rhs: &FInt<N>) -> FInt<N> {
+        self.add(rhs)
+    }
+    pub fn verif_sub(&self, rhs: &FInt<N>) -> FInt<N> {
+        self.sub(rhs)
+    }
+    pub fn verif_mul(&self, rhs: &FInt<N>) -> FInt<N> {
+        self.mul(rhs)
+    }
+    pub fn verif_shl(&self, s: u32) -> FInt<N> {
+        let mut z = self.clone();
+        z.shl(s);
+        z
+    }
+    pub fn verif_shr(&self, s: u32) -> FInt<N> {
+        let mut z = self.clone();
+        z.shr(s);
+        z
+    }
+    pub fn verif_twiddle(&self, i: u32, k: u32) -> FInt<N> {
+        let mut z = self.clone();
+        z.twiddle(i, k);
+        z
+    }
+    pub fn verif_butterfly(x: &FInt<N>, y: &FInt<N>) -> (FInt<N>, FInt<N>) {
+        let (mut a, mut b) = (x.clone(), y.clone());
+        butterfly(&mut a, &mut b);
+        (a, b)
+    }
+}
+
+#[cfg(yamaquasi_verif)]
+impl<'a> MultiZmodP<'a> {
+    /// Number of NTT primes in use.
+    pub fn verif_w(&self) -> usize {
+        self.w
+    }
+    pub fn verif_primes(&self) -> Vec<u64> {
+        self.primes.clone()
+    }
+    /// Pointwise product of residue vectors (x *= y).
+    pub fn verif_mul(&self, x: &mut [u64], y: &[u64]) {
+        self.mul(x, y)
+    }
+}
